@@ -793,3 +793,55 @@ def copy_array_capacity(ctx, tabs, prop="C06"):
                          "%s%r: the third argument must be the capacity of the destination, size({f_var},kind=C_SIZE_T)" % (
                              helper, tuple(args)), sample={"row": rname, "call": args})
     ctx.item("%s/T4/copy-helper-rows-found" % prop, n >= 4, "only %d copy-helper call sites found (vacuity guard)" % n)
+
+
+# ------------------------------------------------------------------------------------------------- C06 / T5
+def python_ownership(ctx, tabs, prop="C06"):
+    """C06/T5: single ownership in the Python conversion helpers and member setters.
+    (a) a helper that allocates an array p and hands it to a PyCapsule (whose destructor frees it when the wrapper's
+        fail/cleanup block drops the capsule) does not free p itself after the hand-over;
+    (b) a member setter that drops the object owning the member's storage (Py_XDECREF of the member's data object)
+        re-defines that field before EVERY return: a field left as it was dangles, and the next assignment or the
+        deletion of the object releases the same object again."""
+    n = 0
+    for lang, t in sorted(tabs.items()):
+        for hname, h in sorted(t["CHelpers"].items()):
+            text = helper_sources(h, lang)
+            for m in re.finditer(r'\*\s*(\w+)\s*=\s*[^;]*\b(?:malloc|calloc)\s*\(', text):
+                p = m.group(1)
+                own = re.search(r'PyCapsule_New\(\s*%s\s*,' % re.escape(p), text[m.end():])
+                if not own:
+                    continue
+                n += 1
+                after = text[m.end() + own.end():]
+                # up to the end of this function
+                ok = not re.search(r'\bfree\(\s*%s\s*\)' % re.escape(p), after.split("\n// helper ")[0])
+                ctx.item("%s/T5/%s/%s.capsule-owns-%s" % (prop, lang, hname, p), ok,
+                         "helper %s frees %s after the capsule that owns it was created: the capsule destructor frees it "
+                         "again when the wrapper drops the capsule on its fail path" % (hname, p), sample={"helper": hname})
+        for row in t.get("py_raw", []):
+            lines = [l for l in (row.get("setter") or []) if isinstance(l, str)]
+            for i, l in enumerate(lines):
+                m = re.match(r'\s*Py_(?:X?DECREF|CLEAR)\((\{c_var_(?:data|obj)\})\);', l)
+                if not m:
+                    continue
+                n += 1
+                fld = m.group(1)
+                bad = []
+                last_def = None
+                for j in range(i + 1, len(lines)):
+                    if re.match(r'\s*%s\s*=' % re.escape(fld), lines[j]):
+                        last_def = j
+                    if re.match(r'\s*return\b', lines[j]):
+                        # the definition must belong to this path: between the release and this return, and not before
+                        # an earlier return (which ends another path)
+                        prev_ret = max([k for k in range(i + 1, j) if re.match(r'\s*return\b', lines[k])] or [i])
+                        if last_def is None or last_def < prev_ret:
+                            bad.append(lines[j].strip())
+                if last_def is None:
+                    bad.append("<end of setter>")
+                ctx.item("%s/T5/%s/%s.setter-redefines-%s" % (prop, lang, row.get("name"), fld.strip("{}")), not bad,
+                         "setter of %s drops the owner %s and returns (%s) without re-defining the field: it dangles, and the "
+                         "next assignment / deletion releases the same object again" % (row.get("name"), fld, bad),
+                         sample={"row": row.get("name")})
+    ctx.item("%s/T5/reached" % prop, n >= 10, "python ownership clauses evaluated on %d sites" % n)
